@@ -250,12 +250,12 @@ _PCT = re.compile(r"%(?:\((\w+)\))?([#0\- +]*)(\d+)?(?:\.(\d+))?([sdrxXi%])")
 
 def _sx_mod(fmt, args):
     if not isinstance(fmt, (str, SStr)):
-        return fmt % args
+        return fmt % args  # passthrough
     if isinstance(fmt, SStr):
         raise EngineError("%-formatting with a symbolic template")
     tup = args if isinstance(args, tuple) else (args,)
     if not any(_needs_sym(x) for x in tup):
-        return fmt % args
+        return fmt % args  # passthrough
     out = []
     pos = 0
     k = 0
@@ -318,10 +318,34 @@ def _sx_fstr(*parts):
 
 
 # --------------------------------------------------------------------------- table lookups
+# Provenance of characters produced by indexing a concrete list with a symbolic integer: ast id -> (term, list, index).
+# Looking such a character up in a concrete dict is the composition of two tables; composing them first (and returning
+# the index itself when the composition is the identity, as for ALPHA_NUM[NUM_ALPHA[i]]) spares the solver two nested
+# 65-way if-then-else chains.  Purely a change of representation: the value is the same function of the index.
+CHAR_SRC = {}
+
+
 def _table_lookup(keys_vals, key, missing):
     """keys_vals: list of (concrete key, value); key: symbolic SStr. One fork on membership, ITE on the value."""
+    if len(key.cs) == 1 and not isinstance(key.cs[0], (int, Atom)):
+        src = CHAR_SRC.get(key.cs[0].get_id())
+        if src is not None:
+            _, lst, idx = src
+            d = dict((k, v) for k, v in keys_vals if isinstance(k, str))
+            if all(ch in d for ch in lst):
+                comp = [d[ch] for ch in lst]
+                if all(isinstance(v, int) and not isinstance(v, bool) for v in comp):
+                    if comp == list(range(len(lst))):
+                        return idx
+                    return _list_lookup(comp, idx)
     cands = [(k, v) for k, v in keys_vals if isinstance(k, str) and len(k) == len(key.cs)]
-    if not cands or not core.EX.branch(z3.Or(*[key.eq_expr(k) for k, _ in cands])):
+    if not cands:
+        return missing()
+    if len(key.cs) == 1:
+        present = core.char_in(key.cs[0], frozenset(ord(k) for k, _ in cands if ord(k) < 256))
+    else:
+        present = core.EX.branch(z3.Or(*[key.eq_expr(k) for k, _ in cands]))
+    if not present:
         return missing()
     vals = [v for _, v in cands]
     if all(isinstance(v, int) and not isinstance(v, bool) for v in vals):
@@ -335,7 +359,7 @@ def _table_lookup(keys_vals, key, missing):
         e = z3.BitVecVal(ord(vals[-1]), CW)
         for k, v in reversed(cands[:-1]):
             e = z3.If(key.eq_expr(k), z3.BitVecVal(ord(v), CW), e)
-        return SStr.mk([z3.simplify(e)])
+        return SStr.mk([core.register_char_set(z3.simplify(e), [ord(v) for v in vals])])
     for k, v in cands[:-1]:
         if core.EX.branch(key.eq_expr(k)):
             return v
@@ -365,7 +389,12 @@ def _list_lookup(lst, idx):
         e = z3.BitVecVal(ord(vals[-1]), CW)
         for j in range(len(vals) - 2, -1, -1):
             e = z3.If(idx._cmp_expr(lo + j, "eq"), z3.BitVecVal(ord(vals[j]), CW), e)
-        return SStr.mk([z3.simplify(e)])
+        e = z3.simplify(e)
+        if z3.is_bv_value(e):
+            return chr(e.as_long())
+        if lo == 0 and hi == n - 1:
+            CHAR_SRC[e.get_id()] = (e, list(lst), idx)
+        return SStr.mk([core.register_char_set(e, [ord(v) for v in vals])])
     return lst[idx.concretize()]
 
 
@@ -387,7 +416,9 @@ def _sx_getitem(x, k):
             return _list_lookup(list(x), k)
         if isinstance(x, (dict,)) and isinstance(k, SInt):
             raise EngineError("dict indexed by a symbolic integer")
-    return x[k]
+    if type(k) is slice:
+        k = core.concretize_slice(k)
+    return x[k]  # passthrough
 
 
 def _sx_in(a, b):
@@ -418,7 +449,7 @@ def _sx_in(a, b):
             if models.key_eq(y, a):
                 return True
         return False
-    return a in b
+    return a in b  # passthrough
 
 
 _views = {}
@@ -506,7 +537,7 @@ def _sx_call(_o, _n, /, *a, **k):
         if _any_proxy(a, k) or (_n in ("sub", "subn") and callable(a[0])):
             return getattr(symre.wrap_real_pattern(_o), _n)(*a, **k)
         return getattr(_o, _n)(*a, **k)
-    return getattr(_o, _n)(*a, **k)
+    return getattr(_o, _n)(*a, **k)  # passthrough
 
 
 HELPERS = {
